@@ -2,7 +2,7 @@
 
 ENGINES = [
     {'name': 'crawler', 'path': 'mc/crawl.py',
-     'serves_properties': ['C01', 'C02', 'C03', 'C10', 'C13'],
+     'serves_properties': ['C01', 'C02', 'C03', 'C06', 'C10', 'C13'],
      'kind_free_text': 'in-process world (mc/world.py: real Flask app, virtual clock, snapshots) + independent MPD '
                        'reader (mc/mpd.py) + independent ISO-BMFF reader (mc/bmff.py) + synthetic media writer '
                        '(mc/synth.py); clock transition system over critical instants'},
@@ -96,5 +96,17 @@ CHECKS['C13'] = dict(
          'malformed spellings, and every string of <= 3 (quick) / 4-5 (thorough) tokens over a 10-token alphabet; '
          'each response compared with the slice of the un-ranged body at the same instant.',
     note='Reference semantics in mc/range7233.py (single byte-range, clamping, suffix, unsatisfiable).')
+
+CHECKS['C06'] = dict(
+    engine='crawler',
+    technique='bounded-exhaustive config product with an index cursor over every enumerated segment vs stored scan',
+    design_ref='DESIGN.md §7 C06',
+    text='Every vod/odvod-capable template x fixture and synthetic streams (irregular and strongly irregular '
+         'durations, non-zero first decode time, no tfdt, styp with/without sidx) x option deviation level 1 '
+         '(thorough: 2): the static manifest is read independently, every enumerated number / timeline entry / '
+         'byte range is fetched, plus last+1; decode times must chain gaplessly from the file first decode time to '
+         'the stored total, the declared duration must equal the reference duration to the millisecond, and '
+         'on-demand ranges must tile the stored file on box boundaries.',
+    note='Numbers enumerated per 5.3.9.5.3 from the document alone; stored view from mc/bmff.py.')
 
 NOT_BUILT = {}
